@@ -418,6 +418,35 @@ def run(ctx, idx):
         ctx.ob("C17.c", "%s.execute::cell-parse" % d.key, d.module.rel, call.lineno, okp, "cells are parsed with float()" if okp else
                "cells are parsed with `%s`, not float(): for an integer element type a numeric cell written `2.0` or `1e3` (as EEMSWrite itself writes integer columns next to float ones) is rejected as an invalid value" % K.src(fexp)[:60])
     ctx.floor("C17.c", "cell parsing calls", n_parse, 1)
+    # a cell that is not a number is REPORTED: the handler of the parse's ValueError leaves by raising on every path - one that
+    # appends a stand-in (the missing value for an empty cell) and goes on turns a malformed table into data
+    n_hdl = 0
+    for tr_ in [n for n in ast.walk(fi.node) if isinstance(n, ast.Try)]:
+        if not any(isinstance(c_, ast.Call) and K.src(c_.func) in ("float", "int", "numpy.float64") for b_ in tr_.body for c_ in ast.walk(b_)):
+            continue
+        for h_ in tr_.handlers:
+            hs_ = K.src(h_.type) if h_.type is not None else ""
+            if not (h_.type is None or "ValueError" in hs_ or hs_ in ("Exception", "BaseException")):
+                continue
+            n_hdl += 1
+
+            def _always_raises(stmts):
+                for st in stmts:
+                    if isinstance(st, ast.Raise):
+                        return True
+                    if isinstance(st, ast.If) and st.orelse and _always_raises(st.body) and _always_raises(st.orelse):
+                        return True
+                    if isinstance(st, (ast.Continue, ast.Break, ast.Return)):
+                        return False
+                    if isinstance(st, ast.If) and any(isinstance(x_, (ast.Continue, ast.Break, ast.Return)) for b_ in st.body + st.orelse for x_ in ast.walk(b_)):
+                        return False
+                return False
+            okh = _always_raises(h_.body)
+            esc_ = next((x_ for st in h_.body for x_ in ast.walk(st) if isinstance(x_, (ast.Continue, ast.Break, ast.Return))), None)
+            ctx.ob("C17.c", "%s.execute::bad-cell-is-reported" % d.key, d.module.rel, h_.lineno, okh, "a cell that does not parse as a number raises InvalidDataFile on every path of the handler" if okh else
+                   "the handler of the cell parse can leave without raising (`%s` at line %d): a cell that is not a number - an empty one, say - is replaced by a stand-in and the row goes on as data, instead of being reported with its file line" % (
+                       K.src(esc_)[:30] if esc_ is not None else "falls through", esc_.lineno if esc_ is not None else h_.lineno))
+    ctx.floor("C17.c", "handlers of the cell parse", n_hdl, 1)
     # ---- d, e (writer)
     d, r = wr
     fi = d.execute
@@ -454,6 +483,14 @@ def run(ctx, idx):
                             header.append(c)
                         elif k_ == "result":
                             cols.append(c)
+    if not header and cols:
+        # the row handed to the first writerow is built from the commands but is not their result names
+        wr0 = sorted([n for n in own_nodes(fi.node) if isinstance(n, ast.Call) and isinstance(n.func, ast.Attribute) and n.func.attr == "writerow"], key=lambda n: n.lineno)
+        if wr0 and wr0[0].args:
+            hx = K.expand(fi, wr0[0].args[0]) if isinstance(wr0[0].args[0], ast.Name) else wr0[0].args[0]
+            if isinstance(hx, (ast.ListComp, ast.GeneratorExp)) and len(hx.generators) == 1 and K.src(hx.generators[0].iter) == K.src(cols[0].generators[0].iter) and "result_name" in K.src(hx.elt):
+                ctx.violate("C17.d", "%s.execute::header-written" % d.key, d.module.rel, hx.lineno, "the header row is `%s`, not the result names themselves: a column is then labelled with something else than the name its field is read back by (two fields can share a label; the written file does not read back)" % K.src(hx.elt)[:70])
+                header = [hx]
     if not header or not cols:
         raise AnalysisError("C17.d: header / column comprehensions not found in the CSV writer")
     hs, cs = K.src(header[0].generators[0].iter), K.src(cols[0].generators[0].iter)
